@@ -580,11 +580,14 @@ static J gen_c17 (uint64_t seed, uint64_t idx)
 		}
 	} ;
 	J ops = J::arr () ;
+	GenCtx gx (sub_seed (seed, "C17x", idx)) ;		// later additions draw from a stream of their own: the other choices stay what they were
 	storm (ops, (int) g.rng.range (0, 3), true) ;		// no handle yet: skipped unless null_handle
 	{ J o = mkop ("open") ; o ["mode"] = "w" ; ops.push (o) ; }
 	if (g.rng.chance (0.5)) { J s = mkop ("setstr") ; s ["type"] = SF_STR_TITLE ; s ["len"] = 12 ; s ["stream"] = 3 ; ops.push (s) ; }
 	if (g.rng.chance (0.3)) { J b = mkop ("setbext") ; b ["fill"] = 1 ; b ["hist"] = 100 ; b ["stream"] = 4 ; ops.push (b) ; }
 	if (g.rng.chance (0.3)) { J c = mkop ("setcues") ; c ["count"] = (long long) g.rng.pick<int64_t> ({ 1, 3, 100, 150 }) ; c ["stream"] = 5 ; ops.push (c) ; }
+	if (gx.rng.chance (0.3)) { J c = mkop ("setcart") ; c ["fill"] = 1 ; c ["tag"] = (long long) gx.rng.range (0, 200) ; c ["stream"] = 6 ; ops.push (c) ; }
+	if (gx.rng.chance (0.3)) { J c = mkop ("setinstr") ; c ["loops"] = (long long) gx.rng.range (0, 3) ; c ["stream"] = 7 ; ops.push (c) ; }
 	storm (ops, (int) g.rng.range (1, 8), true) ;
 	int nw = (int) g.rng.range (1, 3) ; int64_t N = 0 ;
 	for (int k = 0 ; k < nw ; k++)
@@ -605,6 +608,12 @@ static J gen_c17 (uint64_t seed, uint64_t idx)
 	{ J b = mkop ("bad") ; b ["kind"] = "seek_bad_whence" ; b ["whence"] = 9 ; ops.push (b) ; }		// after an error
 	storm (ops, (int) g.rng.range (1, 4), false) ;
 	ops.push (mkop ("close")) ;
+	// a third of the injected commands get one of the structured datasize variants
+	for (auto &op : ops.a) if (op.gets ("op") == "storm")
+	{	uint64_t q = gx.rng.below (100) ;
+		if (q < 8) op ["dsz"] = (long long) (gx.rng.chance (0.5) ? 100064 : 100065) ;
+		else if (q < 33) op ["dsz"] = (long long) (200000 + gx.rng.below (64)) ;
+	}
 	J task = J::obj () ; task ["ops"] = ops ; plan ["tasks"].push (task) ;
 	return plan ;
 }
